@@ -216,6 +216,9 @@ func runChild(bin, dir, runRe, outDir string, id string, batch, nbatch int, seed
 	if race {
 		e = append(e, "GORACE=halt_on_error=0 log_path="+filepath.Join(outDir, fmt.Sprintf("race-%d", batch)))
 	}
+	if os.Getenv("VF_KEEP_SRVLOG") != "" {
+		e = append(e, "VF_SRVLOG="+filepath.Join(outDir, fmt.Sprintf("srv-%d.log", batch)))
+	}
 	cmd.Env = e
 	cmd.SysProcAttr = &syscall.SysProcAttr{Setpgid: true}
 	co := childOut{log: logp, batch: batch}
@@ -245,7 +248,8 @@ func runChild(bin, dir, runRe, outDir string, id string, batch, nbatch int, seed
 			co.res = &r
 		}
 	}
-	if err != nil && !co.timeout {
+	if err != nil && !co.timeout && !(race && co.res != nil && co.res.Done) {
+		// (a -race binary exits non-zero when the detector has reported anything; that is judged from the race log)
 		co.crashed = true
 	}
 	if co.res == nil || !co.res.Done {
@@ -409,6 +413,9 @@ func main() {
 
 	var outs []childOut
 	var mu sync.Mutex
+	var raceViols []violation
+	raceInfo := map[string]int{}
+	raceRan := false
 	for pi, p := range parts {
 		bin := filepath.Join(work, fmt.Sprintf("part%d.test", pi))
 		if err := build(work, p.Pkg, p.Tags, p.Race, p.TimePatch, bin); err != nil {
@@ -449,6 +456,14 @@ func main() {
 		}
 		wg.Wait()
 		os.Remove(bin)
+		if p.Race {
+			rv, inScope, outScope, harnessOnly := parseRaceLogs(outDir)
+			raceViols = append(raceViols, rv...)
+			raceInfo["race_reports_in_scope"] += inScope
+			raceInfo["race_reports_out_of_scope"] += outScope
+			raceInfo["race_reports_involving_harness_reads"] += harnessOnly
+			raceRan = true
+		}
 	}
 	sort.Slice(outs, func(i, j int) bool {
 		if outs[i].part != outs[j].part {
@@ -511,6 +526,13 @@ func main() {
 		}
 	}
 
+	viols = append(viols, raceViols...)
+	if raceRan {
+		for k, v := range raceInfo {
+			info[k] = float64(v)
+		}
+		clauses["race_detector_ran"]++
+	}
 	// known findings
 	known := loadKnown()
 	code := 0
@@ -647,4 +669,117 @@ func selftest() {
 		die(2, "selftest: /repo not found")
 	}
 	fmt.Println("vf selftest ok:", len(checks), "checks registered")
+}
+
+
+var raceScopeRe = regexp.MustCompile(`\.subs\b|sessCache|\.lru\b|terminating|lastAction|\.status\b|lastTouched`)
+var raceFrameRe = regexp.MustCompile(`^\s+(/\S+\.go):(\d+)`)
+
+// parseRaceLogs reads the Go race detector logs of a part. A report is in scope iff neither access comes from a
+// harness goroutine reading actor state and the source line of the first server frame of one of the two accesses
+// names the shared data the property lists (attachment tables, session registry, termination / status flags).
+func parseRaceLogs(dir string) (viols []violation, inScope, outScope, harness int) {
+	files, _ := filepath.Glob(filepath.Join(dir, "race-*"))
+	seen := map[string]bool{}
+	srcCache := map[string][]string{}
+	srcLine := func(file string, line int) string {
+		ls, ok := srcCache[file]
+		if !ok {
+			b, _ := os.ReadFile(file)
+			ls = strings.Split(string(b), "\n")
+			srcCache[file] = ls
+		}
+		if line-1 >= 0 && line-1 < len(ls) {
+			return ls[line-1]
+		}
+		return ""
+	}
+	for _, f := range files {
+		b, err := os.ReadFile(f)
+		if err != nil {
+			continue
+		}
+		for _, block := range strings.Split(string(b), "==================") {
+			if !strings.Contains(block, "WARNING: DATA RACE") {
+				continue
+			}
+			// split into access sections; stop at "Goroutine ... created at"
+			lines := strings.Split(block, "\n")
+			type access struct {
+				fn, file string
+				line     int
+				harness  bool
+			}
+			var accs []access
+			var cur *access
+			inAccess := false
+			for i := 0; i < len(lines); i++ {
+				l := lines[i]
+				t := strings.TrimSpace(l)
+				if strings.HasPrefix(t, "Goroutine ") {
+					break
+				}
+				if strings.HasPrefix(t, "Write at") || strings.HasPrefix(t, "Read at") || strings.HasPrefix(t, "Previous write at") ||
+					strings.HasPrefix(t, "Previous read at") || strings.HasPrefix(t, "Atomic") || strings.HasPrefix(t, "Previous atomic") {
+					accs = append(accs, access{})
+					cur = &accs[len(accs)-1]
+					inAccess = true
+					continue
+				}
+				if !inAccess || cur == nil {
+					continue
+				}
+				if m := raceFrameRe.FindStringSubmatch(l); m != nil && i > 0 {
+					file := m[1]
+					ln, _ := strconv.Atoi(m[2])
+					fn := strings.TrimSpace(lines[i-1])
+					if strings.Contains(filepath.Base(file), "vf_") {
+						cur.harness = true
+					}
+					if cur.file == "" && strings.HasPrefix(file, repo+"/") && !strings.Contains(filepath.Base(file), "vf_") && !strings.Contains(file, "/vfmem/") && !strings.Contains(file, "/vfkit/") {
+						cur.fn, cur.file, cur.line = fn, file, ln
+					}
+				}
+			}
+			if len(accs) < 2 {
+				continue
+			}
+			if accs[0].harness || accs[1].harness {
+				harness++
+				continue
+			}
+			scope := false
+			var fns []string
+			for _, a := range accs[:2] {
+				if a.file != "" {
+					if raceScopeRe.MatchString(srcLine(a.file, a.line)) {
+						scope = true
+					}
+					fn := a.fn
+					if i := strings.LastIndex(fn, "("); i > 0 {
+						fn = fn[:i]
+					}
+					fns = append(fns, strings.TrimPrefix(fn, "github.com/tinode/chat/server"))
+				}
+			}
+			sort.Strings(fns)
+			key := strings.Join(fns, "|")
+			if !scope {
+				outScope++
+				continue
+			}
+			inScope++
+			if seen[key] {
+				continue
+			}
+			seen[key] = true
+			blk := block
+			if len(blk) > 4000 {
+				blk = blk[:4000]
+			}
+			viols = append(viols, violation{Sig: "race:" + key, Msg: "data race on state the sessions/topics/hub/registry share under a lock or atomic: " + key,
+				Witness: map[string]any{"report": blk}})
+		}
+	}
+	return
 }
